@@ -2315,3 +2315,162 @@ Proof.
   - apply (fresh_in_pres s s3 locs P0 Hfr).
   - eapply pres_trans; eauto.
 Qed.
+
+Lemma hderef_ok s v c : heap_deref (hp s) v = Ok c -> hderef v s = ROk c s.
+Proof. intros H. rewrite hderef_eq, H. reflexivity. Qed.
+
+(* -------------------------------------------------------------------- reverse *)
+Lemma pchain_pres s s' v cells e :
+  values_are_refs s -> pres s s' -> val_ok s v ->
+  pchain (hp s) v cells e -> pchain (hp s') v cells e.
+Proof.
+  intros W P Hv Hc. induction Hc as [v c Hd Hp | v a d cells e Hd Hc IH].
+  - econstructor; [|exact Hp]. now rewrite (pres_deref s s' v P Hv).
+  - econstructor.
+    + now rewrite (pres_deref s s' v P Hv).
+    + apply IH. pose proof W as (_ & Hpairs & _).
+      destruct v; cbn [val_ok] in Hv; try contradiction; cbn [heap_deref] in Hd; try discriminate.
+      now destruct (Hpairs _ _ _ Hd).
+Qed.
+
+Definition car_vals (s : vm) (cells : list (N * N)) : list aval :=
+  map (fun ad => absv s (VPtr (fst ad))) cells.
+
+Lemma car_vals_pres s s' cells :
+  pres s s' -> Forall (fun ad => target_ok s (fst ad) /\ target_ok s (snd ad)) cells ->
+  car_vals s' cells = car_vals s cells.
+Proof.
+  intros P Hf. unfold car_vals. apply map_ext_in. intros ad Hin.
+  rewrite Forall_forall in Hf. apply (pres_absv s s' (VPtr (fst ad)) P). exact (proj1 (Hf ad Hin)).
+Qed.
+
+Lemma reverse_loop_spec fuel lst cells : forall s a d e tp f,
+  values_are_refs s -> pchain (hp s) (VPtr d) cells e ->
+  target_ok s a -> target_ok s d -> target_ok s tp -> (length cells + 1 < f)%nat ->
+  forall ce, heap_deref (hp s) e = Ok ce ->
+  if is_nil ce then
+    exists r s' locs, reverse_loop fuel f lst (VPair a d) (VPtr tp) s = ROk (VPtr r) s' /\
+      pres s s' /\ values_are_refs s' /\ target_ok s' r /\
+      aprefix (abs s') (absv s' (VPtr r)) locs (rev (car_vals s cells) ++ [absv s (VPtr a)]) (absv s (VPtr tp)) /\
+      fresh_in s locs /\ st s' = st s
+  else render_fail (reverse_loop fuel f lst (VPair a d) (VPtr tp) s).
+Proof.
+  induction cells as [|[a2 d2] cells IH]; intros s a d e tp f W Hpc Ta Td Tt Hf ce Hce.
+  - destruct f as [|f]; [cbn in Hf; lia|].
+    destruct (cons_cell s a tp W Ta Tt) as (p & s1 & E1 & P1 & W1 & T1 & Hnl1 & Ap1 & Hp1 & Hx1 & _).
+    inversion Hpc as [v0 c0 Hd0 Hp0 |]; subst.
+    assert (Hd1 : heap_deref (hp s1) (VPtr d) = Ok c0) by (rewrite (pres_deref s s1 (VPtr d) P1 Td); exact Hd0).
+    rewrite Hd0 in Hce. injection Hce as <-.
+    assert (Hstep : reverse_loop fuel (S f) lst (VPair a d) (VPtr tp) s =
+                    if is_nil c0 then ROk (VPtr p) s1 else fail_cell fuel lst s1).
+    { cbn [reverse_loop as_car as_cdr as_ptr bindM ret]. rewrite (bind_ok _ _ _ _ _ E1).
+      cbn [bindM ret]. rewrite (bind_ok _ _ _ _ _ (hderef_ok s1 _ _ Hd1)).
+      rewrite Hp0. destruct (is_nil c0); reflexivity. }
+    rewrite Hstep. destruct (is_nil c0); [|apply fail_cell_render_fail].
+    exists p, s1, [p]. refine (conj eq_refl (conj P1 (conj W1 (conj T1 (conj _ (conj _ Hx1)))))).
+    + cbn [car_vals map rev app]. rewrite Ap1. econstructor; [exact Hp1 | constructor].
+    + constructor; [exact Hnl1 | constructor].
+  - destruct f as [|f]; [cbn in Hf; lia|].
+    destruct (cons_cell s a tp W Ta Tt) as (p & s1 & E1 & P1 & W1 & T1 & Hnl1 & Ap1 & Hp1 & Hx1 & _).
+    inversion Hpc as [| v0 a0 d0 cells0 e0 Hd0 Hc0]; subst.
+    assert (Hd1 : heap_deref (hp s1) (VPtr d) = Ok (VPair a2 d2)) by (rewrite (pres_deref s s1 (VPtr d) P1 Td); exact Hd0).
+    pose proof W as (_ & Hpairs & _). cbn [heap_deref] in Hd0. destruct (Hpairs _ _ _ Hd0) as (Ta2 & Td2).
+    assert (Hstep : reverse_loop fuel (S f) lst (VPair a d) (VPtr tp) s =
+                    reverse_loop fuel f lst (VPair a2 d2) (VPtr p) s1).
+    { cbn [reverse_loop as_car as_cdr as_ptr bindM ret]. rewrite (bind_ok _ _ _ _ _ E1).
+      cbn [bindM ret]. rewrite (bind_ok _ _ _ _ _ (hderef_ok s1 _ _ Hd1)). reflexivity. }
+    rewrite Hstep.
+    assert (Hpc1 : pchain (hp s1) (VPtr d2) cells e) by exact (pchain_pres s s1 (VPtr d2) cells e W P1 Td2 Hc0).
+    destruct (pchain_cells_ok s (VPtr d2) cells e W Td2 Hc0) as (Hcells & Hve).
+    assert (Hce1 : heap_deref (hp s1) e = Ok ce) by (rewrite (pres_deref s s1 e P1 Hve); exact Hce).
+    cbn [length] in Hf.
+    pose proof (IH s1 a2 d2 e p f W1 Hpc1 (pres_target_ok _ _ _ P1 Ta2) (pres_target_ok _ _ _ P1 Td2) T1
+                  ltac:(lia) ce Hce1) as R.
+    destruct (is_nil ce); [|exact R].
+    destruct R as (r & s' & locs & E3 & P3 & W3 & T3 & Hpre & Hfr & Hx3).
+    exists r, s', (locs ++ [p]).
+    refine (conj E3 (conj _ (conj W3 (conj T3 (conj _ (conj _ _)))))).
+    + eapply pres_trans; eauto.
+    + rewrite Ap1 in Hpre. rewrite (car_vals_pres s s1 cells P1 Hcells) in Hpre.
+      rewrite (pres_absv s s1 (VPtr a2) P1 Ta2) in Hpre.
+      cbn [car_vals map rev fst]. fold (car_vals s cells).
+      eapply aprefix_snoc; [exact Hpre|].
+      rewrite (pres_a_pair s1 s' p W1 P3) by (exact (proj1 T1)). exact Hp1.
+    + unfold fresh_in. apply Forall_app. split.
+      * apply (fresh_in_pres s s1 locs P1 Hfr).
+      * constructor; [exact Hnl1 | constructor].
+    + congruence.
+Qed.
+
+Theorem reverse_refines fuel s v xs e :
+  values_are_refs s -> val_ok s v -> called_with s [v] ->
+  achain (abs s) (absv s v) xs e -> (length xs + 1 < fuel)%nat ->
+  (e = AImm VNil ->
+     exists r s' locs, call_builtin (reverse fuel) s = ROk r s' /\
+       aprefix (abs s') (absv s' r) locs (rev xs) (AImm VNil) /\ fresh_in s locs /\
+       pres s s' /\ values_are_refs s' /\ val_ok s' r) /\
+  (e <> AImm VNil -> render_fail (call_builtin (reverse fuel) s)).
+Proof.
+  intros W Hv H Hch Hfuel. unfold called_with in H. cbn [len length rev app N.of_nat Pos.of_succ_nat] in H.
+  set (s1 := with_sp s (sp s - 1)).
+  set (s2 := with_sp s1 (sp s1 - 1)).
+  pose proof (stack_top_tail _ _ _ _ H) as H1.
+  destruct (achain_pchain s W _ _ _ Hch v Hv eq_refl) as (cells & e' & Hpc & Hm & He & Hve).
+  assert (Hlen : length cells = length xs) by (rewrite <- Hm; now rewrite map_length).
+  destruct (val_deref s v Hv) as (c & Hc & _ & _).
+  destruct (pchain_end_deref _ _ _ _ Hpc) as (ce & Hce & Hpe).
+  assert (Hnil : e = AImm VNil <-> ce = VNil) by (rewrite <- He; apply (nil_deref s e' ce Hve Hce)).
+  assert (Hrun : reverse fuel s =
+    if negb (is_pair c) then (if is_nil c then ROk c s2 else fail_cell fuel c s2)
+    else (dom tail <- hput VNil; reverse_loop fuel fuel c c tail) s2).
+  { unfold reverse. pop_argc_tac H s 1 1 (Some 1). fold s1.
+    unfold bindM at 1. rewrite (pop_value_top s1 v [] H1). fold s2. unfold lift.
+    change (hp s1) with (hp s). rewrite Hc.
+    destruct (negb (is_pair c)); [destruct (is_nil c)|]; reflexivity. }
+  inversion Hpc as [v0 c0 Hd0 Hp0 | v0 a d cells0 e0 Hd0 Hc0]; subst.
+  - (* not a pair: the chain is empty *)
+    rewrite Hc in Hd0. injection Hd0 as <-. rewrite Hce in Hc. injection Hc as ->.
+    rewrite Hp0 in Hrun. cbn [negb] in Hrun.
+    cbn [map rev]. split.
+    + intros Ee. assert (c = VNil) by (now apply Hnil). subst c. cbn [is_nil] in Hrun.
+      exists VNil, s2, []. refine (conj _ (conj _ (conj _ (conj (pres_refl s) (conj W I))))).
+      * unfold call_builtin. rewrite (bind_ok _ _ _ _ _ Hrun). reflexivity.
+      * cbn [rev absv]. constructor.
+      * constructor.
+    + intros Ene. assert (Hn : c <> VNil) by (intros E0; apply Ene; now apply Hnil).
+      unfold call_builtin. apply render_fail_bind. rewrite Hrun.
+      destruct c; try contradiction; cbn [is_nil]; apply fail_cell_render_fail.
+  - rewrite Hc in Hd0. injection Hd0 as ->. cbn [is_pair negb] in Hrun.
+    pose proof W as (_ & Hpairs & _).
+    assert (Hg : exists p, heap_get (hp s) p = Ok (VPair a d)).
+    { destruct v; cbn [val_ok] in Hv; try contradiction; cbn [heap_deref] in Hc; try discriminate. eauto. }
+    destruct Hg as (pv & Hg). destruct (Hpairs _ _ _ Hg) as (Ta & Td).
+    assert (Hnilc : new_cell_ok s2 VNil) by exact I.
+    destruct (hput_new s2 VNil W Hnilc) as (p0 & h0 & E0 & F0).
+    destruct (fresh_wf s2 VNil p0 h0 W Hnilc F0) as (W0 & T0).
+    pose proof (fresh_pres _ _ _ _ F0) as P0.
+    set (s3 := with_heap s2 h0) in *.
+    assert (Hpc3 : pchain (hp s3) (VPtr d) cells0 e') by exact (pchain_pres s s3 (VPtr d) cells0 e' W P0 Td Hc0).
+    destruct (pchain_cells_ok s (VPtr d) cells0 e' W Td Hc0) as (Hcells & _).
+    assert (Hce3 : heap_deref (hp s3) e' = Ok ce) by (rewrite (pres_deref s s3 e' P0 Hve); exact Hce).
+    cbn [length] in Hlen.
+    pose proof (reverse_loop_spec fuel (VPair a d) cells0 s3 a d e' p0 fuel W0 Hpc3
+                  (pres_target_ok _ _ _ P0 Ta) (pres_target_ok _ _ _ P0 Td) T0 ltac:(lia) ce Hce3) as R.
+    rewrite (bind_ok _ _ _ _ _ E0) in Hrun. fold s3 in Hrun.
+    split.
+    + intros Ee. assert (ce = VNil) by (now apply Hnil). subst ce. cbn [is_nil] in R.
+      destruct R as (r & s' & locs & E3 & P3 & W3 & T3 & Hpre & Hfr & Hx3).
+      exists (VPtr r), s', locs. refine (conj _ (conj _ (conj _ (conj _ (conj W3 T3))))).
+      * unfold call_builtin. rewrite (bind_ok _ _ _ _ _ (eq_trans Hrun E3)). reflexivity.
+      * assert (En : absv s3 (VPtr p0) = AImm VNil).
+        { destruct F0 as (_ & _ & _ & _ & Hg0 & _). cbn [absv s3 with_heap hp]. now rewrite Hg0. }
+        rewrite En in Hpre.
+        rewrite (car_vals_pres s s3 cells0 P0 Hcells) in Hpre.
+        rewrite (pres_absv s s3 (VPtr a) P0 Ta) in Hpre.
+        cbn [map rev fst]. exact Hpre.
+      * apply (fresh_in_pres s s3 locs P0 Hfr).
+      * eapply pres_trans; eauto.
+    + intros Ene. assert (Hn : ce <> VNil) by (intros E0'; apply Ene; now apply Hnil).
+      unfold call_builtin. apply render_fail_bind. rewrite Hrun.
+      destruct ce; try contradiction; exact R.
+Qed.
